@@ -827,6 +827,8 @@ def check_C16(ctx):
         ctx.cov["distribution"] = rep.get("distribution")
         ctx.cov["samples"] += rep.get("samples", [])
         ctx.cov["exhaustive"] = True
+        for v in rep["violations"][:4]:
+            ctx.violation(v.get("kind", "tls"), v)
     ctx.assumptions += [
         "TLS.v specifies what crypto/tls does with MinVersion / ClientAuth / InsecureSkipVerify (15 lines); crypto/tls and crypto/x509 are NOT verified: the specification is validated on every run against the real library over the entire peer space of the property on loopback, for a fresh configuration and for one that held weaker settings before the call",
         "translator transcribes the assignments of DefaultServerTLSConfig / DefaultClientTLSConfig; any statement it does not understand makes the configuration 'not understood' and the theorem fail",
